@@ -27,82 +27,96 @@ def V(n):
     return ('val', n)
 
 
+def shape(db):
+    """closed forms of the six StarkDomains fields: list of (field, ok, detail) + the field map, or None when the
+    constructor is not one reconstructible struct literal"""
+    fn = db.fn(common.DOMAINS_NEW, 'C12')
+    T = exprtree.Trees(db, fn, inline=2)
+    t = T.local(0)
+    if not (isinstance(t, tuple) and t[0] == 'agg' and t[1].endswith('StarkDomains')):
+        return None, exprtree.show(t)[:200]
+    fields = t[3]
+    # accepted spellings of the operations
+    POW = ('pow_felt', 'pow')
+    DIV = ('field_div', 'floor_div')
+    ADD = ('add',)
+
+    def is_op(x, names, n):
+        return isinstance(x, tuple) and len(x) == n + 1 and x[0] in names
+
+    def is_sum(x):
+        return is_op(x, ADD, 2) and {x[1], x[2]} == {('arg', 1), ('arg', 2)}
+
+    def pow2(x, which):
+        if not is_op(x, POW, 2) or x[1] != V(2):
+            return False
+        return is_sum(x[2]) if which == 'eval' else x[2] == ('arg', 1)
+
+    def gen(x, which):
+        """G^((p-1)/2^e) with G a generator literal and the dividend the literal p-1"""
+        if not is_op(x, POW, 2) or x[1][0] != 'val':
+            return False, 'not a power of a constant'
+        G = x[1][1]
+        if not literals.is_generator(G % P):
+            return False, f'base {G} is not a generator of F_p^*'
+        e = x[2]
+        if not is_op(e, DIV, 2):
+            return False, 'exponent is not a quotient'
+        if e[1] != V(P - 1):
+            return False, 'dividend is not the literal p-1'
+        if not pow2(e[2], which):
+            return False, 'divisor is not 2^(%s)' % ('t+c' if which == 'eval' else 't')
+        return True, 'ok'
+
+    out = []
+    checks = {
+        'log_eval_domain_size': (is_sum(fields.get('log_eval_domain_size')), 'must be t + c'),
+        'eval_domain_size': (pow2(fields.get('eval_domain_size'), 'eval'), 'must be 2^(t+c)'),
+        'log_trace_domain_size': (fields.get('log_trace_domain_size') == ('arg', 1), 'must be t'),
+        'trace_domain_size': (pow2(fields.get('trace_domain_size'), 'trace'), 'must be 2^t'),
+    }
+    for name, (ok, why) in checks.items():
+        out.append((name, ok, f'{name} {why}; reconstructed: {exprtree.show(fields.get(name))[:160]}'))
+    for name, which in (('eval_generator', 'eval'), ('trace_generator', 'trace')):
+        ok, why = gen(fields.get(name), which)
+        if not ok and which == 'trace':
+            # equivalent closed form named by the property itself: eval_generator ^ (2^c), exactly
+            tg = fields.get(name)
+            if is_op(tg, POW, 2) and tg[1] == fields.get('eval_generator') and gen(tg[1], 'eval')[0] \
+                    and is_op(tg[2], POW, 2) and tg[2][1] == V(2) and tg[2][2] == ('arg', 2):
+                ok, why = True, 'ok (eval_generator^(2^c))'
+        out.append((name, ok, f'{name}: {why}; reconstructed: {exprtree.show(fields.get(name))[:200]}'))
+    return out, fields
+
+
 def run(ctx, rep):
     literals.oracle_selfcheck()
     for cfg in ctx.stone_configs():
         db = ctx.db(cfg)
         fn = db.fn(common.DOMAINS_NEW, 'C12')
-        T = exprtree.Trees(db, fn)
-        t = T.local(0)
         loc = fn.loc()
-        if not (isinstance(t, tuple) and t[0] == 'agg' and t[1].endswith('StarkDomains')):
+        items, fields = shape(db)
+        if items is None:
             rep.fail_closed('C12.shape', f'StarkDomains::new does not return a struct literal reconstructible '
-                                         f'from straight-line MIR: {exprtree.show(t)[:200]}')
+                                         f'from straight-line MIR: {fields}')
             return
-        fields = t[3]
-        # constants actually used (by value) -- and the named const items, from the HIR
         g = literals.const_value(db, 'swiftness_air::domains::FIELD_GENERATOR')
         pm1 = literals.const_value(db, 'swiftness_air::domains::STARK_PRIME_MINUS_ONE')
-        # accepted spellings of the operations
-        POW = ('pow_felt', 'pow')
-        DIV = ('field_div', 'floor_div')
-        ADD = ('add',)
-
-        def is_op(x, names, n):
-            return isinstance(x, tuple) and len(x) == n + 1 and x[0] in names
-
-        def is_sum(x):
-            return is_op(x, ADD, 2) and {x[1], x[2]} == {('arg', 1), ('arg', 2)}
-
-        def pow2(x, which):
-            if not is_op(x, POW, 2) or x[1] != V(2):
-                return False
-            return is_sum(x[2]) if which == 'eval' else x[2] == ('arg', 1)
-
-        def gen(x, which):
-            """G^((p-1)/2^e) with G a generator literal and the dividend the literal p-1"""
-            if not is_op(x, POW, 2) or x[1][0] != 'val':
-                return False, 'not a power of a constant'
-            G = x[1][1]
-            if not literals.is_generator(G % P):
-                return False, f'base {G} is not a generator of F_p^*'
-            e = x[2]
-            if not is_op(e, DIV, 2):
-                return False, 'exponent is not a quotient'
-            if e[1] != V(P - 1):
-                return False, 'dividend is not the literal p-1'
-            if not pow2(e[2], which):
-                return False, 'divisor is not 2^(%s)' % ('t+c' if which == 'eval' else 't')
-            return True, 'ok'
-
-        checks = {
-            'log_eval_domain_size': (is_sum(fields.get('log_eval_domain_size')), 'must be t + c'),
-            'eval_domain_size': (pow2(fields.get('eval_domain_size'), 'eval'), 'must be 2^(t+c)'),
-            'log_trace_domain_size': (fields.get('log_trace_domain_size') == ('arg', 1), 'must be t'),
-            'trace_domain_size': (pow2(fields.get('trace_domain_size'), 'trace'), 'must be 2^t'),
-        }
-        for name, (ok, why) in checks.items():
-            rep.ob('C12.shape', name, ok,
-                   f'{name} {why}; reconstructed: {exprtree.show(fields.get(name))[:160]}', loc, cfg, sample=True)
-        for name, which in (('eval_generator', 'eval'), ('trace_generator', 'trace')):
-            ok, why = gen(fields.get(name), which)
-            if not ok and which == 'trace':
-                # equivalent closed form named by the property itself: eval_generator ^ (2^c), exactly
-                tg = fields.get(name)
-                if is_op(tg, POW, 2) and tg[1] == fields.get('eval_generator') and gen(tg[1], 'eval')[0] \
-                        and is_op(tg[2], POW, 2) and tg[2][1] == V(2) and tg[2][2] == ('arg', 2):
-                    ok, why = True, 'ok (eval_generator^(2^c))'
-            rep.ob('C12.shape', name, ok,
-                   f'{name}: {why}; reconstructed: {exprtree.show(fields.get(name))[:200]}', loc, cfg, sample=True)
-        rep.ob('C12.literal', 'FIELD_GENERATOR', g is not None and literals.is_generator(g % P) and g < P,
-               f'FIELD_GENERATOR literal = {g}: must generate F_p^*',
-               db.consts['swiftness_air::domains::FIELD_GENERATOR']['span']['file'], cfg)
-        rep.ob('C12.literal', 'STARK_PRIME_MINUS_ONE', pm1 == P - 1,
-               f'STARK_PRIME_MINUS_ONE literal = {hex(pm1) if pm1 is not None else None}: must be p-1',
-               db.consts['swiftness_air::domains::STARK_PRIME_MINUS_ONE']['span']['file'], cfg)
+        for name, ok, detail in items:
+            rep.ob('C12.shape', name, ok, detail, loc, cfg, sample=True)
+        # the literals are checked by value wherever they are used in the closed forms above (gen() tests the base and
+        # the dividend); the named const items, when they exist, are checked as well
+        for cname, okv, msg in (('FIELD_GENERATOR', g is not None and literals.is_generator(g % P) and g < P, 'must generate F_p^*'),
+                                ('STARK_PRIME_MINUS_ONE', pm1 == P - 1, 'must be p-1')):
+            item = db.consts.get('swiftness_air::domains::' + cname)
+            if item is None:
+                continue
+            val = g if cname == 'FIELD_GENERATOR' else pm1
+            rep.ob('C12.literal', cname, okv, f'{cname} literal = {hex(val) if val is not None else None}: {msg}',
+                   item['span']['file'], cfg)
         rep.ob('C12.fields', 'six-fields', set(fields) == {'log_eval_domain_size', 'eval_domain_size',
                                                             'eval_generator', 'log_trace_domain_size',
                                                             'trace_domain_size', 'trace_generator'},
                f'StarkDomains fields built: {sorted(fields)}', loc, cfg)
     rep.note('configs', ctx.stone_configs())
-    rep.floor('C12', 'obligations', len({o['key'] for o in rep.obligations}), 9)
+    rep.floor('C12', 'obligations', len({o['key'] for o in rep.obligations}), 7)
